@@ -101,7 +101,7 @@ for name, ctype, quick in [("uint8", "unsigned char", True), ("uint16", "unsigne
 # integral-constant bounds) in every position of rank 1-3 sources with static / dynamic / mixed extents.
 # SUB_STRICT: also require the static extent the standard derives for a pair of constants on a DYNAMIC source extent (tetl keeps it
 # dynamic: proposed/C19/findings5.jsonl, fix proposed/C19/fixes5/0001) - switch on together with that fix or the finding line.
-SUB_STRICT = False
+SUB_STRICT = True
 for name, ctype, quick in [("int32", "int", True), ("uint64", "unsigned long", False), ("int8", "signed char", False)]:
     for part in (1, 2):
         units.append(Unit(f"C19_sub_{name}_part{part}", "harness/C19_sub.cpp",
